@@ -14,7 +14,7 @@
     [HT] is the honest token (OpenZeppelin ledger with minter/burner role). *)
 From Coq Require Import ZArith List.
 From stdpp Require Import gmap.
-From HV Require Import Erc20.PegModel Erc20.PegProofs Erc20.MultiProofs.
+From HV Require Import Erc20.PegModel Erc20.PegProofs Erc20.MultiProofs Erc20.SpellProofs.
 Import ListNotations.
 Local Open Scope Z_scope.
 
@@ -533,3 +533,93 @@ Theorem C10_nonvacuous_multi_contract_tx :
     = views (mhook_logs tk_of impl (fst (after_calls mix_calls)) (keep (fun l => N.eqb (lc l) 1 || N.eqb (lc l) 2) logs)).
 Proof. exact mix_runs. Qed.
 Print Assumptions C10_nonvacuous_multi_contract_tx.
+
+(** ** equivalent spellings of the same message
+
+    Addresses and token identifiers reach the chain as strings.  [step_sp tk cf s sp o] is the
+    step function the correspondence evaluates: the operation [o] (RESOLVED actors) together with
+    the spelling [sp] of its string fields (hex: EIP-55 / lower / upper / wrong checksum / without
+    0x / 0X; bech32: lower / upper / another prefix / hex / mixed; token: denomination or the
+    contract address in any hex spelling; see PegModel.v).  The conversion functions take
+    addresses, not strings: *)
+
+(** the outcome of a message is a function of the resolved operation: any two spellings the
+    chain's parsing accepts give the same state and the same result, namely [step] *)
+Theorem C10_outcome_independent_of_spelling :
+  forall (T : Type) (tk : token T) (cf : cfg) (s : st T) (sp1 sp2 : spell) (o : op),
+    spell_ok o sp1 = true -> spell_ok o sp2 = true ->
+    step_sp tk cf s sp1 o = step_sp tk cf s sp2 o /\ step_sp tk cf s sp1 o = step tk cf s o.
+Proof. exact @outcome_independent_of_spelling. Qed.
+Print Assumptions C10_outcome_independent_of_spelling.
+
+(** which spellings are accepted: every hex spelling of every hex field (letter case, checksum,
+    prefix) and the upper-case bech32 spelling of the message fields (the receiver of a received
+    ICS-20 packet: lower case only) *)
+Theorem C10_hex_spellings_and_letter_case_accepted :
+  forall (o : op) (c a b : N), (c < 7)%N -> (a < 2)%N -> (b < 2)%N ->
+    match o with Recv _ _ _ _ _ => b = 0%N | _ => True end -> spell_ok o (mkspell c a b) = true.
+Proof. exact spell_ok_hex_and_case. Qed.
+Print Assumptions C10_hex_spellings_and_letter_case_accepted.
+
+(** a spelling the parsing refuses does nothing the canonical spelling would not do: the
+    message fails without effect (or the callback never reads the string) *)
+Theorem C10_refused_spelling_no_effect :
+  forall (T : Type) (tk : token T) (cf : cfg) (s : st T) (sp : spell) (o : op),
+    spell_ok o sp = false ->
+    step_sp tk cf s sp o = step tk cf s o \/
+    (fst (step_sp tk cf s sp o) = s /\ snd (step_sp tk cf s sp o) <> OK).
+Proof. exact @step_sp_refused. Qed.
+Print Assumptions C10_refused_spelling_no_effect.
+
+Theorem C10_failed_written_message_no_effect :
+  forall (T : Type) (tk : token T) (cf : cfg) (s : st T) (sp : spell) (o : op) (s' : st T) (r : N),
+    step_sp tk cf s sp o = (s', r) -> r <> OK -> s' = s.
+Proof. exact @failed_step_sp_no_effect. Qed.
+Print Assumptions C10_failed_written_message_no_effect.
+
+(** honest token: the backing invariant over ALL histories of written messages, whatever the
+    spellings (accepted or refused) *)
+Theorem C10_backing_inv_all_spelled_histories :
+  forall (cf : cfg) (h : list (spell * op)) (s : st ledger), fresh s -> backing_inv (run_sp HT cf h s).
+Proof. exact backing_inv_all_spelled_histories. Qed.
+Print Assumptions C10_backing_inv_all_spelled_histories.
+
+Theorem C10_accepted_spellings_run_like_resolved_history :
+  forall (T : Type) (tk : token T) (cf : cfg) (h : list (spell * op)) (s : st T),
+    Forall (fun e => spell_ok (snd e) (fst e) = true) h -> run_sp tk cf h s = run tk cf (map snd h) s.
+Proof. exact @run_sp_accepted. Qed.
+Print Assumptions C10_accepted_spellings_run_like_resolved_history.
+
+(** the delayed-malicious token of /repo/contracts: MsgConvertERC20 is refused (unexpected
+    Approval event) in every accepted spelling of contract, sender and receiver *)
+Theorem C10_delayed_malicious_refused_in_every_spelling :
+  forall c a b, In c [0; 1; 2; 3; 4; 5; 6]%N -> In a [0; 1; 2; 3; 4; 5; 6]%N -> In b [0; 1]%N ->
+    step_sp (preset_token approve_transfer) impl approve_state (mkspell c a b) (CE 1 1 40) = (approve_state, EApproval).
+Proof. exact approve_token_refused_in_every_spelling. Qed.
+Print Assumptions C10_delayed_malicious_refused_in_every_spelling.
+
+(** refutation witness (NOT the code of /repo): an Approval monitor that compares the emitting
+    contract with the message's contract address as STRINGS refuses the canonical spelling and
+    converts in the lower-case one *)
+Theorem C10_spelling_dependent_monitor_refuted :
+  let tk := preset_token approve_transfer in
+  snd (ce_native_token_strcmp tk approve_state csp 1 1 40) = EApproval /\
+  snd (ce_native_token_strcmp tk approve_state (mkspell 1 0 0) 1 1 40) = OK /\
+  supply (fst (ce_native_token_strcmp tk approve_state (mkspell 1 0 0) 1 1 40)) = 40 /\
+  ce_native_token_strcmp tk approve_state (mkspell 1 0 0) 1 1 40 <> ce_native_token tk approve_state 1 1 40 /\
+  ce_native_token_strcmp tk approve_state csp 1 1 40 = ce_native_token tk approve_state 1 1 40.
+Proof. exact spelling_dependent_monitor_refuted. Qed.
+Print Assumptions C10_spelling_dependent_monitor_refuted.
+
+Theorem C10_nonvacuous_spelling :
+  let r := step HT impl honest_state (CE 1 2 40) in
+  snd r = OK /\ supply (fst r) = 40 /\ zget (cbal (fst r)) 2 = 40 /\
+  zget (lbal (tok (fst r))) MODULE = 40 /\ zget (lbal (tok (fst r))) 1 = 60 /\
+  step_sp HT impl honest_state (mkspell 1 4 1) (CE 1 2 40) = r /\
+  step_sp HT impl honest_state (mkspell 6 2 0) (CE 1 2 40) = r /\
+  step_sp HT impl honest_state (mkspell 7 0 0) (CE 1 2 40) = (honest_state, EOther) /\
+  step_sp HT impl honest_state (mkspell 0 0 4) (CE 1 2 40) = (honest_state, EOther) /\
+  step_sp HT impl honest_state (mkspell 2 0 0) Toggle = step HT impl honest_state Toggle /\
+  step_sp HT impl honest_state (mkspell 9 0 0) Toggle = (honest_state, ENotFound).
+Proof. exact spelling_nonvacuous. Qed.
+Print Assumptions C10_nonvacuous_spelling.
